@@ -72,7 +72,7 @@ func (s *JsonObjectBuilder) writeKey(key string) {
 		s.sb.WriteString(", ")
 	}
 	s.sb.WriteRune('"')
-	s.sb.WriteString(key)
+	s.sb.WriteString(escape(key)) // a dissect token name may hold quotes, backslashes or control characters
 	s.sb.WriteString("\": ")
 	s.keyCount++
 }
